@@ -408,6 +408,13 @@ func genHandoverReuse(g *srvGen) drv.SCase {
 // cross-instance references, then Flush requests walk the decision table.
 func genC08(g *srvGen) drv.SCase {
 	r := g.r
+	if r.Chance(1, 3) {
+		// the set of instances is asked for (Get and Flush of all, on the empty server) before one or both of the
+		// VRFs exist: they are created at run time, before anything refers to them
+		g.add(drv.SStep{K: "get", Get: &drv.GetSpec{NI: "all", AFT: "ALL"}})
+		g.add(drv.SStep{K: "flush", Flush: &drv.FlushSpec{Elec: "override", NI: "all"}})
+		g.c.Late, g.c.LateAt = drv.Pick(r, []int{2}, []int{3}, []int{2, 3}), 2
+	}
 	s := g.connect(true)
 	base := drv.U128{Hi: uint64(r.Intn(2)), Lo: uint64(2 + r.Intn(3))}
 	noElection := r.Chance(1, 8)
